@@ -26,8 +26,17 @@ def prepare(m, setup, routes=None, backend="lambda"):
     model, order = render.build(m, routes=routes, backend=backend)
     model.parameters = list(setup["theta"])
     # documented usage passes t[0] of a linspace: a NumPy scalar
-    model.initial_values = (list(setup["x0"]), np.float64(setup["t0"]))
+    model.initial_values = (x0_argument(setup), np.float64(setup["t0"]))
     return model, order
+
+
+def x0_argument(setup):
+    form = setup.get("x0_form", "int")
+    if form == "float":
+        return [float(v) for v in setup["x0"]]
+    if form == "float_array":
+        return np.array(setup["x0"], dtype=np.float64)
+    return list(setup["x0"])
 
 
 def configure(model, algo):
